@@ -27,7 +27,10 @@ def validate(d):
     patch = os.path.join(out, "patch.diff")
     wt = "/tmp/seedval-%d" % os.getpid()
     sh("git -C /repo worktree remove --force %s" % wt)
-    rc, o = sh("git -C /repo worktree add --detach %s HEAD" % wt)
+    base = "HEAD"
+    if "--base" in sys.argv:
+        base = sys.argv[sys.argv.index("--base") + 1]
+    rc, o = sh("git -C /repo worktree add --detach %s %s" % (wt, base))
     if rc != 0:
         print(o)
         return 2
@@ -38,7 +41,7 @@ def validate(d):
         if rc != 0:
             print(o)
             return 1
-        rc, o = sh("go build ./... && go vet -tags verif ./pfcpiface/ >/dev/null 2>&1; go build -tags verif ./pfcpiface/", cwd=wt)
+        rc, o = sh("go build ./... && (test ! -f pfcpiface/verif_hooks.go || go build -tags verif ./pfcpiface/)", cwd=wt)
         res["builds"] = rc == 0
         if rc != 0:
             print(o[-3000:])
